@@ -199,6 +199,56 @@ func init() {
 		}
 	}
 
+	// a damaged record is reported even when the adoption is refused for another
+	// reason: AdoptSession has removed it by then, and nobody else will tell
+	e3tests["c15-denied"] = func(e *e3, thorough bool) {
+		if e.shard != 0 {
+			return
+		}
+		base := newPlainStore()
+		base.m[0] = refEncodeValue([]byte("cid"), 1)
+		base.m[0x8000] = refEncodeValue(encPublish(1, false, false, 0x8000, "t", []byte("first")), 2)
+		base.m[0x8001] = refEncodeValue(encPublish(1, false, false, 0x8001, "t", []byte("second")), 3)
+		base.m[0x8002] = refEncodeValue(encPublish(1, false, false, 0x8002, "t", []byte("third")), 4)
+		full := len(base.m[0x8002])
+		for pos := 0; pos < 2*full; pos++ {
+			for _, limit := range []int{0, 1, -1, 3} {
+				e.at("damage position %d, AtLeastOnceMax %d", pos, limit)
+				st := newPlainStore()
+				for k, v := range base.m {
+					st.m[k] = clone(v)
+				}
+				if pos < full {
+					st.m[0x8002][pos] ^= 0x04
+				} else {
+					st.m[0x8002] = append([]byte{}, st.m[0x8002][:pos-full]...)
+				}
+				cfg := baseConfig()
+				cfg.AtLeastOnceMax = limit
+				cfg.Dialer = func(ctx context.Context) (net.Conn, error) { return nil, errors.New("no network") }
+				cl, warn, fatal := mqtt.AdoptSession(st, &cfg)
+				e.evals.Add(1)
+				e.distinct[fmt.Sprintf("denied/%d/%t", limit, fatal != nil)] = true
+				wantFatal := limit == 0 || limit == 1 // two intact records are pending
+				if (fatal != nil) != wantFatal {
+					e.violate("C15", "adopt-limit", "AtLeastOnceMax %d with two intact pending records and one damaged: fatal error %v", limit, fatal)
+				}
+				gone, _ := st.Load(0x8002)
+				named := false
+				for _, w := range warn {
+					named = named || strings.Contains(w.Error(), "0x8002")
+				}
+				if gone == nil && !named {
+					e.violate("C15", "damage-not-reported#denied", "record 0x8002 (damage position %d) was removed by AdoptSession (AtLeastOnceMax %d, fatal error %v) but no warning names it: %v", pos, limit, fatal, warn)
+				}
+				if cl != nil {
+					cl.Close()
+				}
+			}
+		}
+		e.sample("a damaged third record next to two intact ones, adopted with limits 0, 1, -1, 3")
+	}
+
 	// C14: error classifiers over wrapped and joined error trees
 	e3tests["c14-classifiers"] = func(e *e3, thorough bool) {
 		_, denyTopic := mqtt.VolatileSession("\xff", &mqtt.Config{Dialer: func(context.Context) (net.Conn, error) { return nil, nil }})
@@ -623,7 +673,8 @@ func c20(e *e3, thorough bool) {
 			}
 		}
 		// exchange stub scripts (runs in a bubble: the stub sleeps)
-		entries := []error{errors.New("plain"), fmt.Errorf("wrapped: %w", mqtt.ErrClosed), mqtttest.ExchangeBlock{}, mqtttest.ExchangeBlock{Delay: time.Millisecond}}
+		entries := []error{errors.New("plain"), fmt.Errorf("wrapped: %w", mqtt.ErrClosed), mqtttest.ExchangeBlock{}, mqtttest.ExchangeBlock{Delay: time.Millisecond},
+			mqtttest.ExchangeBlock{Delay: -time.Millisecond}} // a delay that has elapsed already: only zero means indefinite
 		var scripts [][]error
 		var gen func(prefix []error, n int)
 		gen = func(prefix []error, n int) {
